@@ -227,6 +227,13 @@ def main(tier: str) -> int:
         rich = tier == "thorough" or len(s) < 4
         jobs.append(dict(module="IndexMaps_Gen", cfg_text=cfg(1, False, tier, rich=rich), defs=d,
                          timeout=1500))
+    # shapes with a mode of size zero (no entries, but the modes still move): dense, Kruskal and Tucker holders only -
+    # the sparse class rejects such a shape at construction
+    zero_shapes = [(2, 0, 3), (0, 2), (3, 1, 0)]
+    nzero = (len(jobs), len(jobs) + len(zero_shapes))
+    for s in zero_shapes:
+        jobs.append(dict(module="IndexMaps_Gen", cfg_text=cfg(1, False, tier, rich=False), defs={"ShapeC": tla.tla(list(s))},
+                         timeout=1500))
     # random chains of depth 4 on a few shapes (simulation mode)
     sim_shapes = [(2, 3, 2), (1, 2, 3), (2, 2, 1, 2)] if tier == "quick" else \
         [(2, 3, 2), (1, 2, 3), (3, 2, 1), (2, 2, 2, 2), (2, 1, 3, 2), (3, 3, 2), (2, 3)]
@@ -249,6 +256,9 @@ def main(tier: str) -> int:
     for k, r in enumerate(results):
         out.add_tlc(r)
         bs = [b for b in r.json if b["ev"]]
+        if nzero[0] <= k < nzero[1]:
+            bs = [b for b in bs if b["init"].get("kind") != "sparse"]
+            out.notes["zero_size_behaviours"] = out.notes.get("zero_size_behaviours", 0) + len(bs)
         if k >= nwide:
             # narrow subscript types are part of the presentation of a sparse operand (bind.g_sparse, "strided")
             for i, b in enumerate(bs):
